@@ -71,6 +71,30 @@ class C19(Check):
         final = save.args.args[0].arg
         opens = write_opens(save)
         if not opens:
+            # the write may sit in a context manager of this module that the save function enters with the final path
+            for w in [w for w in ast.walk(save) if isinstance(w, ast.With)]:
+                for it_ in w.items:
+                    c_ = it_.context_expr
+                    if isinstance(c_, ast.Call) and isinstance(c_.func, ast.Name) and c_.func.id in mod.functions and c_.args and norm(c_.args[0]) == final:
+                        helper = mod.functions[c_.func.id]
+                        if write_opens(helper):
+                            save = helper
+                            final = helper.args.args[0].arg
+                            opens = write_opens(helper)
+        # a rename onto a final name must not be reachable when the write failed (finally / except)
+        for fname_, f_ in mod.functions.items():
+            if "." in fname_:
+                continue
+            sc_f = Scope(f_)
+            for x in walk_no_nested(f_):
+                if isinstance(x, ast.Call) and (norm(x.func) in ("os.replace", "os.rename", "shutil.move") or (isinstance(x.func, ast.Attribute) and x.func.attr in ("replace", "rename") and len(x.args) == 1
+                                                                                                                  and not isinstance(x.func.value, ast.Constant) and "str" not in norm(x.func.value))):
+                    on_failure = [t for t, fld in sc_f.enclosing_with_field(x, ast.Try) if fld in ("finalbody", "handlers")]
+                    if on_failure:
+                        self.violated("D1", MOD, fname_, "publish-only-after-complete-write", x,
+                                      f"`{norm(x)}` sits in a finally / except block: it also runs when the write was interrupted by an exception, publishing a truncated file under the trusted name",
+                                      witness="KeyboardInterrupt during pickle.dump: the rerun finds <key>.p, loads it and fails with EOFError instead of recomputing")
+        if not opens:
             self.undecided_ob("D1", MOD, save.name, "publish", save, "no write found in the default save function")
         direct = [(p, c) for p, c in opens if norm(p) == final]
         # atomic: written path is a local derived name, later replaced onto `final`
